@@ -36,6 +36,10 @@ var verifCastProgs = []verifCastProg{
 		func(a int64) string { return fmt.Sprint(a+1) + "\ncaught\n" }},
 	{"nested-list", "fn main() {\n  let o = new { l: [A, 2] } as { ? };\n  let l = o.get(\"l\").unwrap() as [int];\n  println(l[0] + l[1]);\n  try {\n    let m = o.get(\"l\").unwrap() as [str];\n    println(\"not reached\", m);\n  } catch e {\n    println(\"caught\");\n  }\n  println(l.len());\n}\n",
 		func(a int64) string { return fmt.Sprint(a+2) + "\ncaught\n2\n" }},
+	{"partially-dynamic-list", "fn main() {\n  let o = new { l: [A, 2] } as { ? };\n  let anys: [any] = o.get(\"l\").unwrap() as [any];\n  let ints = anys as [int];\n  println(ints[0] + ints[1]);\n  try {\n    let strs = anys as [str];\n    println(\"not reached\", strs);\n  } catch e {\n    println(\"caught\");\n  }\n  println(ints.len());\n}\n",
+		func(a int64) string { return fmt.Sprint(a+2) + "\ncaught\n2\n" }},
+	{"partially-dynamic-option", "fn main() {\n  let o = new { k: A } as { ? };\n  let any_opt: ?any = o.get(\"k\");\n  let good = any_opt as ?int;\n  println(good.unwrap() + 1);\n  try {\n    let bad = any_opt as ?str;\n    println(\"not reached\", bad);\n  } catch e {\n    println(\"caught\");\n  }\n}\n",
+		func(a int64) string { return fmt.Sprint(a+1) + "\ncaught\n" }},
 	{"parse-json", "fn main() {\n  let r = \"{\\\"val\\\": 42}\".parse_json() as { val: int };\n  println(r.val + A);\n  try {\n    let s = \"{\\\"val\\\": 42}\".parse_json() as { val: str };\n    println(\"not reached\", s);\n  } catch e {\n    println(\"caught\");\n  }\n  println(\"end\");\n}\n",
 		func(a int64) string { return fmt.Sprint(42+a) + "\ncaught\nend\n" }},
 }
